@@ -244,6 +244,7 @@ fn step(r: &mut Runner, k: &Kind) -> Obsv {
 struct St {
     sequences: u64,
     formats: u64,
+    clones: u64,
     v: Violations,
     outcomes: BTreeSet<(usize, String)>,
 }
@@ -282,6 +283,28 @@ fn main() {
             let mut r = Runner::from_emf(pristine.clone(), cfg.mult);
             st.sequences += 1;
             for (pos, &ki) in seq.iter().enumerate() {
+                if pos + 1 == seq.len() && pos > 0 {
+                    // a clone taken after the history must behave like a fresh formatter too
+                    if let Some(mut c) = r.clone_used() {
+                        let oc = std::panic::catch_unwind(std::panic::AssertUnwindSafe(|| step(&mut c, &ks[ki])));
+                        st.formats += 1;
+                        st.clones += 1;
+                        let differs = match &oc {
+                            Ok(o) => if ks[ki].compare_bytes { *o != fresh[ki] } else { o.0 != fresh[ki].0 },
+                            Err(_) => true,
+                        };
+                        if differs {
+                            let prefix: Vec<&str> = seq[..pos].iter().map(|&i| ks[i].name).collect();
+                            st.v.add(
+                                format!("clone-of-used-formatter-differs:{}", ks[ki].name),
+                                format!("a clone of a formatter that had formatted {:?} formats {} differently from a fresh formatter (or panics)", prefix, ks[ki].name),
+                                json!({"config": cfg.to_json(), "history": prefix, "then": "clone the formatter", "entry_kind": ks[ki].name,
+                                    "got": oc.as_ref().ok().map(|o| json!({"outcome": o.0, "lines": o.1.iter().map(|l| String::from_utf8_lossy(&l[..l.len().min(600)]).to_string()).collect::<Vec<_>>()})),
+                                    "fresh": {"outcome": fresh[ki].0.clone(), "lines": fresh[ki].1.iter().map(|l| String::from_utf8_lossy(&l[..l.len().min(600)]).to_string()).collect::<Vec<_>>()}}),
+                            );
+                        }
+                    }
+                }
                 let o = match std::panic::catch_unwind(std::panic::AssertUnwindSafe(|| step(&mut r, &ks[ki]))) {
                     Ok(o) => o,
                     Err(_) => {
@@ -320,9 +343,10 @@ fn main() {
         }
     }
     let (mut seqs, mut formats) = (0, 0);
+    let mut clones = 0u64;
     let mut outcomes = BTreeSet::new();
     for s in all_states {
-        seqs += s.sequences; formats += s.formats;
+        seqs += s.sequences; formats += s.formats; clones += s.clones;
         outcomes.extend(s.outcomes);
         rep.violations.merge(s.v);
     }
@@ -330,6 +354,7 @@ fn main() {
     rep.set("transitions", formats);
     rep.set("traces_validated_against_impl", seqs);
     rep.set("distinct_outcomes", outcomes.len() as u64);
+    rep.set("last_steps_repeated_on_a_clone_of_the_used_formatter", clones);
     rep.set("exhaustive", true);
     rep.set("depth", depth);
     rep.set("entry_kinds", nkinds as u64);
